@@ -12,7 +12,8 @@ RULE = ('all sequences up to a depth bound of append/extend/insert(any index)/re
         'indexing/slicing over a pool with two textually equal brace groups, a bracket group, well-formed '
         'and mismatched strings, starting from argument lists of length 0..2 owned by a command; random '
         'histories of up to 30 steps beyond. Non-trivial = a mutator ran while the list held a textual '
-        'duplicate, or an index was negative or beyond the end; distinct by (initial list, operation list)')
+        'duplicate, or an index was negative or beyond the end; distinct by (initial list, operation list)'
+        '. Initial lists also hold a brace-less command argument; coercible strings include bodies ending in backslashes; rejected strings include a trailing newline / leading blank')
 ASSUMPTIONS = [
     'whitespace-only strings, __setitem__, del, sort, += are not in the statement and are not exercised',
     'for extend() with a mismatched element both "unchanged" and "coerced prefix kept" are accepted',
